@@ -87,6 +87,13 @@ func newSubProcess(parentCtx context.Context, eventBuilder event.IDefinitionInst
 			return
 		}
 
+		// the event nodes inside register with this sub-process (it is their event egress), so it has
+		// to receive what the enclosing process or sub-process forwards
+		err = parentWiring.eventEgress.RegisterEventConsumer(process)
+		if err != nil {
+			return
+		}
+
 		wiringMaker := func(element *schema.FlowNode) (*wiring, error) {
 			return newWiring(
 				parentWiring.processInstanceId,
